@@ -445,7 +445,7 @@ type c20Model struct {
 }
 
 var c20Ops = []string{"v=FromArray(s)", "v.SetAsArray(s)", "s[0]=x", "v.SetByIndex(0,x)", "v.SetByIndex(len,x)", "v.SetByIndex(len+2,x)", "v.SetLength(len+1)",
-	"w=v.Clone()", "w.SetByIndex(0,x)", "v.Assign(w)", "v.Clear()", "v.SetAsInteger(1)", "w.SetLength(len+2)", "w=NewVariant(v)", "v[first null filler].SetAsInteger(7)"}
+	"w=v.Clone()", "w.SetByIndex(0,x)", "v.Assign(w)", "v.Clear()", "v.SetAsInteger(1)", "w.SetLength(len+2)", "w=NewVariant(v)", "v[first null filler].SetAsInteger(7)", "s=s[:0]", "s=append(s,x)"}
 
 func c20Hist(h []int) string {
 	p := []string{}
@@ -563,6 +563,10 @@ func c20SeqRun(c *fw.Ctx, h []int) {
 				m.vT, m.vE, m.vU = 2, cp(m.s), false
 				m.shared = false
 			case 2:
+				if len(s) == 0 {
+					applicable = false
+					return
+				}
 				id, e := newElem(m)
 				s[0] = e
 				m.s[0] = id
@@ -652,6 +656,14 @@ func c20SeqRun(c *fw.Ctx, h []int) {
 				}
 				v.GetByIndex(k).SetAsInteger(7)
 				fillVal[m.vE[k]] = 7
+			case 15:
+				// the caller truncates its list but keeps the backing array
+				s = s[:0]
+				m.s = m.s[:0]
+			case 16:
+				id, e := newElem(m)
+				s = append(s, e)
+				m.s = append(m.s, id)
 			case 12:
 				if m.wT != 2 || m.wU {
 					applicable = false
@@ -694,7 +706,7 @@ func init() {
 		ID:    "C20",
 		Level: "model_checking",
 		Rule: "(a) every host value of every listed Go type with boundaries x 5 ways of building a variant: reported type and typed accessor = reference mapping, lists copied; (b) Equals over pool x pool: no panic, symmetric, agrees with a structural reference where that is defined, clone equals original; " +
-			"(c) every history up to the depth bound over 15 operations on two variants and one caller-owned list (construct/set from list, caller write, indexed writes at 0/len/len+2, SetLength, Clone, NewVariant(v), Assign, Clear, SetAsInteger, in-place mutation of a null filler element), replayed on fresh objects against a value model in which every variant owns its element list; non-trivial = applicable histories of >=2 steps / same-type pairs",
+			"(c) every history up to the depth bound over 17 operations on two variants and one caller-owned list (construct/set from list, caller write, indexed writes at 0/len/len+2, SetLength, Clone, NewVariant(v), Assign, Clear, SetAsInteger, in-place mutation of a null filler element, truncating and appending to the caller's list), replayed on fresh objects against a value model in which every variant owns its element list; non-trivial = applicable histories of >=2 steps / same-type pairs",
 		Assume: []string{"after Assign of an array the model does not predict whether storage is shared (accepted either way)", "Equals on date-times denoting the same instant in different zones and on uncomparable object payloads is unspecified (only symmetry and no panic are demanded)"},
 		Spaces: func(tier string) []fw.Space {
 			hosts := c20Hosts()
@@ -719,9 +731,9 @@ func init() {
 		},
 		Bounds: func(tier string) string {
 			if tier == "thorough" {
-				return "all operation histories of length<=5 over 15 operations; full pool x pool equality matrix"
+				return "all operation histories of length<=5 over 17 operations; full pool x pool equality matrix"
 			}
-			return "all operation histories of length<=4 over 15 operations; full pool x pool equality matrix"
+			return "all operation histories of length<=4 over 17 operations; full pool x pool equality matrix"
 		},
 	})
 }
